@@ -6,7 +6,7 @@
     The theorems hold for every flag configuration with the listed repairs; [_refuted] theorems exhibit
     a witness for each missing repair (replayed on the implementation by harness/c12.py). *)
 From Coq Require Import NArith List Bool.
-From Pi2 Require Import ML.Syntax Py.Pattern Py.PatFacts Py.ExpandFacts Py.Witness.
+From Pi2 Require Import ML.Syntax Py.Pattern Py.PatFacts Py.MetaFacts Py.ExpandFacts Py.Witness.
 Import ListNotations.
 Open Scope N_scope.
 
@@ -84,6 +84,15 @@ Theorem C12_deconstruct_mu : forall f, f_mv_keep_subst f = true -> f_inst_extend
 Proof. exact decon_mu_expand. Qed.
 Print Assumptions C12_deconstruct_mu.
 
+(** metavars(): contains every metavariable of the expansion; exact when no substitution is pending anywhere.
+    (Not exact in general, in ANY configuration: C12_refuted_metavars.) *)
+Theorem C12_metavars_incl : forall f p k, In k (p_metavars (expand f p)) -> In k (metavars p).
+Proof. exact metavars_incl. Qed.
+Theorem C12_metavars_exact : forall f p, psubfree p = true ->
+  forall k, In k (metavars p) <-> In k (p_metavars (expand f p)).
+Proof. intros f p Hp k. split; [apply metavars_exact; exact Hp|apply metavars_incl]. Qed.
+Print Assumptions C12_metavars_exact.
+
 (** ---- non-vacuity: the functions do return on notation-laden inputs ---- *)
 Example C12_ex_eq : py_eq flags_sound 20 (and_p (PEVar 1) (neg_p (PEVar 2)))
                       (embed (expand flags_sound (and_p (PEVar 1) (neg_p (PEVar 2))))) = Some true.
@@ -115,6 +124,12 @@ Theorem C12_refuted_eq_partial_inst :
 Proof.
   exists (PInst d5_pat d5_delta), (PImp (PEVar 7) (PEVar 7)), 20%nat. vm_compute. split; reflexivity.
 Qed.
+
+(** D16: Instantiate.metavars() counts a plug that the expansion drops (holds for the sound configuration too:
+    the code has no repair for it; recorded as a finding) *)
+Theorem C12_refuted_metavars :
+  exists p k, In k (metavars p) /\ ~ In k (p_metavars (expand flags_sound p)).
+Proof. exists mvs_pat, 5. vm_compute. split; [auto|intros []]. Qed.
 
 (** D9d: MetaVar.apply_esubst drops a substitution on a declared-fresh variable; instantiation through
     a notation then differs from instantiation of the expansion *)
